@@ -170,6 +170,55 @@ Proof.
   repeat split.
 Qed.
 
+(* ---- leader-follower style intersections *)
+Lemma lfs_ev_lengths a bs : length (fst (lfs_ev a bs)) = length a /\ length (snd (lfs_ev a bs)) = length a.
+Proof.
+  unfold lfs_ev. cbn [fst snd]. rewrite !map_length, combine_length, map_length, seq_length.
+  split; apply Nat.min_id.
+Qed.
+
+Lemma lfs_batch_lengths all seg :
+  Z.of_nat (length (fst (lfs_batch_rows all seg))) = total led seg
+  /\ Z.of_nat (length (snd (lfs_batch_rows all seg))) = total led seg.
+Proof.
+  induction seg as [|p seg [I0 I1]]; [split; reflexivity|].
+  cbn [lfs_batch_rows fst snd flat_map] in *.
+  rewrite !app_length, !Nat2Z.inj_add, I0, I1, !total_cons.
+  unfold lfs_fiber_rows. cbn [fst snd]. rewrite !map_length.
+  destruct (lfs_ev_lengths (occ (f_d p) (f_a p)) (map fst (f_b p))) as [R0 R1]. rewrite R0, R1.
+  split; reflexivity.
+Qed.
+
+Lemma lfs_feed_ok side all d segs :
+  lfs_feed side all d segs = Some (cum 0 (map (total led) segs)).
+Proof.
+  unfold lfs_feed, lfs_calls_of. destruct segs as [|seg segs]; [reflexivity|].
+  cbn [map with_header].
+  destruct (lfs_batch_lengths all seg) as [L0 L1].
+  destruct (lfs_batch_rows all seg) as [r0 r1] eqn:Eb. cbn [fst snd] in L0, L1. cbn [map feed].
+  rewrite map_map.
+  assert (Hstep : forall (s : ist) (x : list fpair), i_started s = true -> True ->
+            exists s', Some (lf_add s (pick side (lfs_batch_rows all x))) = Some s'
+                       /\ i_started s' = true /\ i_cnt s' = i_cnt s + total led x).
+  { intros s x Hs _. eexists. split; [reflexivity|]. split; [reflexivity|].
+    unfold lf_add. cbn [i_cnt]. rewrite Hs.
+    destruct (lfs_batch_lengths all x) as [X0 X1].
+    unfold pick. destruct side; [rewrite X1|rewrite X0]; reflexivity. }
+  set (s1 := lf_add ist0 _).
+  change (map (fun x : list fpair => if side then snd (lfs_batch_rows all x) else fst (lfs_batch_rows all x)) segs)
+    with (map (fun x => pick side (lfs_batch_rows all x)) segs).
+  assert (Hall : Forall (fun _ : list fpair => True) segs) by (apply Forall_forall; intros; exact I).
+  rewrite (feed_cum (fun s c => Some (lf_add s c)) (fun x => pick side (lfs_batch_rows all x)) (total led)
+             (fun s => i_started s = true) (fun _ => True) Hstep segs s1 eq_refl Hall).
+  assert (Hc : i_cnt s1 = 0 + total led seg).
+  { unfold s1, lf_add. cbn [i_cnt ist0 i_started].
+    destruct side; cbn [fst snd length]; [rewrite <- L1|rewrite <- L0]; lia. }
+  cbn [cum map]. rewrite Hc. reflexivity.
+Qed.
+
+Lemma lsched_model_spec fs lens : lsched_model fs lens = lsched_spec fs lens.
+Proof. unfold lsched_model, lsched_spec. rewrite !lfs_feed_ok. reflexivity. Qed.
+
 (* ---- the model's observation satisfies the oracle *)
 Lemma sched_model_spec fs lens :
   wf_fs fs = true -> wf_sched (length fs) lens = true -> sched_model fs lens = sched_spec fs lens.
@@ -186,7 +235,7 @@ Qed.
 
 Lemma c19_model_holds c : c19_wf c = true -> holds c19_checker c (model c19_checker c) = true.
 Proof.
-  destruct c as [fs scheds|t u depth radix lat].
+  destruct c as [fs scheds|t u depth radix lat|fs scheds].
   - cbn [c19_wf holds model c19_checker c19_model c19_holds]. intros H.
     apply andb_true_iff in H. destruct H as [Hfs Hs].
     apply V_eqb_spec. f_equal. apply map_ext_in. intros lens Hin.
@@ -201,4 +250,6 @@ Proof.
     + rewrite (swaps_tree_int depth radix l t Hr Hd). cbn [Vo]. rewrite !Z.eqb_refl. reflexivity.
     + rewrite swaps_ref_N_eq. destruct (swaps_ref_N_total depth radix t Hr Hd) as [v Ev].
       rewrite Ev. cbn [Vo]. rewrite !Z.eqb_refl. reflexivity.
+  - cbn [c19_wf holds model c19_checker c19_model c19_holds]. intros _.
+    apply V_eqb_spec. f_equal. apply map_ext. intros lens. apply lsched_model_spec.
 Qed.
